@@ -34,9 +34,51 @@ def amf_cfg(cfg, strict=False):
 GARBAGE = b"\xff\xfe\xfd"
 
 
+def classify_downlink(b):
+    """kind of a downlink NGAP message built by the reference AMF (for the C19 oracle)"""
+    import perdec, per
+    try:
+        v = perdec.decode("ngapType.NGAPPDU", "valueExt,valueLB:0,valueUB:2", b)
+        cls, procc, ies = perdec.pdu_info(v)
+    except Exception:
+        return "undecodable"
+    names = {(2, 21): "NGSetupResponse", (1, 14): "InitialContextSetupRequest", (1, 29): "PDUSessionResourceSetupRequest",
+             (1, 28): "PDUSessionResourceReleaseCommand", (1, 41): "UEContextReleaseCommand"}
+    if (cls, procc) in names:
+        return names[(cls, procc)]
+    if (cls, procc) == (1, 4):
+        nas = None
+        for i, c, x in perdec.ie_list(ies):
+            if i == 38:
+                nas = bytes.fromhex(x[0]["hex"])
+        if nas is None:
+            return "DownlinkNASTransport"
+        inner = nas[7:] if nas[1] & 15 else nas
+        t = inner[2] if len(inner) > 2 else -1
+        return {0x56: "DL:AuthenticationRequest", 0x5d: "DL:SecurityModeCommand", 0x54: "DL:ConfigurationUpdateCommand",
+                0x46: "DL:DeregistrationAccept", 0x68: "DL:DLNASTransport", 0x4e: "DL:ServiceAccept"}.get(t, "DL:0x%02x" % t)
+    return "ngap-%d-%d" % (cls, procc)
+
+
+def make_garbage(kind, genuine):
+    """bytes that are not a decodable NGAP PDU: fixed octets, or a truncation of the genuine answer"""
+    if kind == "ff" or not genuine:
+        return GARBAGE
+    import perdec
+    for n in (len(genuine) // 2, len(genuine) // 3, 6, 4, 3):
+        cand = genuine[:max(n, 1)]
+        try:
+            perdec.decode("ngapType.NGAPPDU", "valueExt,valueLB:0,valueUB:2", cand)
+        except Exception:
+            return cand
+    return GARBAGE
+
+
 def run(binary, cfg, seed, fault=None, argv=("-t",), timeout=90, strict=False, yaml_text=None):
-    """fault = None | (j, 'close') | (j, 'garbage'): applied to the j-th uplink message (0-based).
-    Returns dict(verdict, rc, uplinks, nrep, stdout, amf, t_after_fault, findings)."""
+    """fault = None | (j, 'close', i) | (j, 'garbage', i, variant): applied to the answer to the j-th uplink message
+    (0-based): close = the AMF sends the first i downlink messages of its answer, then closes; garbage = the i-th
+    downlink message of the answer is replaced by undecodable bytes (variant 'ff' | 'trunc').
+    Returns dict(verdict, rc, uplinks, nrep, kinds, stdout, amf, t_after_fault, findings)."""
     import refamf
     R = random.Random(seed)
     amf = refamf.AMF(amf_cfg(cfg, strict), R)
@@ -47,7 +89,7 @@ def run(binary, cfg, seed, fault=None, argv=("-t",), timeout=90, strict=False, y
     p = subprocess.Popen([binary, *argv], cwd=wd, env=env, pass_fds=[b.fileno()], stdout=subprocess.PIPE, stderr=subprocess.STDOUT)
     b.close()
     a.settimeout(20)
-    k, verdict, nrep, t_fault, uplinks = 0, "ok", [], None, []
+    k, verdict, nrep, t_fault, uplinks, kinds, garbage_sent = 0, "ok", [], None, [], [], None
     try:
         while True:
             try:
@@ -58,13 +100,14 @@ def run(binary, cfg, seed, fault=None, argv=("-t",), timeout=90, strict=False, y
             if not m:
                 break
             uplinks.append(m)
-            if fault and fault[0] == k and fault[1] == "close":
+            if fault and fault[0] == k and fault[1] == "close" and fault[2] == 0:
+                # close at once (before computing any answer): the emulator may be about to write again within milliseconds
                 t_fault = time.time()
                 a.close()
-                verdict = "fault close@%d" % k
+                verdict = "fault close@%d after 0 replies" % k
                 break
             try:
-                outs = amf.handle(m)
+                outs = list(amf.handle(m))
             except refamf.Reject as e:
                 verdict = "REJECT at uplink message %d: %s" % (k, e)
                 a.close()
@@ -73,11 +116,21 @@ def run(binary, cfg, seed, fault=None, argv=("-t",), timeout=90, strict=False, y
                 verdict = "AMF-ERROR at uplink message %d: %r" % (k, e)
                 a.close()
                 break
+            kinds.append([classify_downlink(o) for o in outs])
+            nrep.append(len(outs))
+            if fault and fault[0] == k and fault[1] == "close":
+                for o in outs[:fault[2]]:
+                    a.send(o)
+                t_fault = time.time()
+                a.close()
+                verdict = "fault close@%d after %d replies" % (k, fault[2])
+                break
             if fault and fault[0] == k and fault[1] == "garbage":
                 t_fault = time.time()
-                outs = [GARBAGE] + list(outs[1:])
-                verdict = "fault garbage@%d" % k
-            nrep.append(len(outs))
+                i = fault[2]
+                garbage_sent = make_garbage(fault[3], outs[i] if i < len(outs) else b"")
+                outs = outs[:i] + [garbage_sent] + outs[i + 1:]
+                verdict = "fault garbage@%d reply %d" % (k, i)
             for o in outs:
                 a.send(o)
             k += 1
@@ -96,8 +149,9 @@ def run(binary, cfg, seed, fault=None, argv=("-t",), timeout=90, strict=False, y
     except OSError:
         pass
     shutil.rmtree(wd, ignore_errors=True)
-    return dict(verdict=verdict, rc=rc, uplinks=uplinks, nrep=nrep, stdout=out.decode(errors="replace"), amf=amf,
-                t_after_fault=(t_end - t_fault) if t_fault else None, findings=list(amf.findings))
+    return dict(verdict=verdict, rc=rc, uplinks=uplinks, nrep=nrep, kinds=kinds, stdout=out.decode(errors="replace"), amf=amf,
+                t_after_fault=(t_end - t_fault) if t_fault else None, findings=list(amf.findings),
+                garbage=garbage_sent.hex() if garbage_sent else None)
 
 
 def default_cfg(rng=None, counts=(1, 1, 1, 1, 1)):
